@@ -114,10 +114,21 @@ def go_transcript(fen_cmd, go_cmd, env=None, timeout=60.0, prefix=(), preexec=No
     e = Engine(env=env, preexec=preexec)
     try:
         for ln in prefix:
+            if ln.startswith("@sleep "):
+                time.sleep(int(ln.split()[1]) / 1000.0)
+                continue
             e.send(ln)
-            if ln.startswith("go"):
-                e.read_until(lambda l: l.startswith("bestmove"), timeout)
-        e.isready(timeout)
+        # the stdin thread works through the prefix in order (it blocks in `wait` and in joins), so the answer to this
+        # isready comes after everything the prefix printed
+        want = sum(1 for ln in prefix if ln.strip() == "isready") + 1
+        seen = [0]
+
+        def last_ready(l):
+            if l == "readyok":
+                seen[0] += 1
+            return seen[0] >= want
+        e.send("isready")
+        e.read_until(last_ready, timeout)
         e.send(fen_cmd)
         e.send(go_cmd)
         lines, ok = e.read_until(lambda l: l.startswith("bestmove"), timeout)
